@@ -79,6 +79,15 @@ def _plain(spec):
     return {k: (list(v) if isinstance(v, tuple) else v) for k, v in spec.items() if k not in ("vclasses", "explicit")}
 
 
+class ClosedUniverse(Universe):
+    closed = False
+
+    def add_vertex(self, vert):
+        if self.closed:
+            raise TypeError("this universe takes no further members")
+        super().add_vertex(vert)
+
+
 def unis_for(w, mode):
     nv = len(w.v)
     out = [("none", None, frozenset(range(nv)))]
@@ -95,6 +104,17 @@ def unis_for(w, mode):
         subsets = [tuple(range(nv))] + [tuple(i for i in range(nv) if i != k) for k in range(nv)]
     for s in subsets:
         out.append(("m" + "".join(map(str, s)), Universe(vertices=[w.v[i] for i in s]), frozenset(s)))
+    # universes of a subclass that rejects further members: the outsider has TRIED to join (the call raised),
+    # so it names the universe although the universe does not list it -- it is still outside
+    for k in range(nv):
+        s = tuple(i for i in range(nv) if i != k)
+        u = ClosedUniverse(vertices=[w.v[i] for i in s])
+        u.closed = True
+        try:
+            w.v[k].add_to_universe(u)
+        except TypeError:
+            pass
+        out.append(("c" + "".join(map(str, s)), u, frozenset(s)))
     return out
 
 
@@ -189,7 +209,7 @@ def per_state(spec, seq, w0):
             set_labels(w, lab)
             present = set(lab) - {"-"}
             for uname, uni, members in unis:
-                ukind = "none" if uni is None else ("all" if len(members) == nv else "partial")
+                ukind = "none" if uni is None else ("all" if len(members) == nv else ("partial-closed" if isinstance(uni, ClosedUniverse) else "partial"))
                 for s in _starts(nv, uni, members, few):
                     for sname in SEARCHES:
                         tl = trav[(uname, s, sname)]
